@@ -21,6 +21,7 @@ type Val struct {
 	T     string     // SMT term
 	Typ   types.Type // Go type
 	Elems []Val      // tuple components (Typ is *types.Tuple or nil)
+	Mem   string     // for pointers produced by FieldAddr on a private field: the field's memory
 	// untyped constant (spec side only)
 	Const constant.Value
 }
@@ -267,6 +268,26 @@ func (e *Encoder) memFor(t types.Type) string {
 		e.memOrder = append(e.memOrder, name)
 	}
 	return name
+}
+
+func (e *Encoder) registerMem(name string, t types.Type) {
+	if _, ok := e.mems[name]; !ok {
+		e.mems[name] = t
+		e.memOrder = append(e.memOrder, name)
+	}
+}
+
+// memForField: memory holding field i of struct type st (private field memory, or the generic one).
+func (e *Encoder) memForField(st types.Type, i int) string {
+	ft := st.Underlying().(*types.Struct).Field(i).Type()
+	if name := e.prog.fieldMem(st, i); name != "" {
+		if _, ok := e.mems[name]; !ok {
+			e.mems[name] = ft
+			e.memOrder = append(e.memOrder, name)
+		}
+		return name
+	}
+	return e.memFor(ft)
 }
 
 func (e *Encoder) memSort(t types.Type) string {
